@@ -236,6 +236,7 @@ class Interp:
         self.repo = repo
         self.overrides = dict(overrides or {})
         self.eager_generators: set = set()
+        self.method_oracles: dict = {}
         self.max_steps = max_steps
         self.max_depth = max_depth
         self.steps = 0
@@ -795,6 +796,9 @@ class Interp:
 
     def _class_attr(self, mod, node, inst, cls, attr, _depth=0):
         q = f'{cls.node.name}.{attr}'
+        if (cls.node.name, attr) in self.method_oracles:
+            # a method of a repository class replaced by its oracle (e.g. Circuit.top_sort while folding a caller)
+            return self.method_oracles[(cls.node.name, attr)](inst)
         fn = cls.mod.functions.get(q)
         if fn is not None:
             decos = [norm(d) for d in fn.decorator_list]
